@@ -191,7 +191,7 @@ class Judge:
 
 SIG = {"limit": "C07/limit-exceeded/", "stuck": "C07/lost-wakeup/", "parked-closed": "C07/close/",
        "leak": "C07/leak/", "close-open": "C07/close/", "close-waiter": "C07/close/", "raised": "C07/connect-raised/",
-       "conserve": "C07/conservation/", "conserve2": "C07/conservation/", "hang": "C07/liveness/"}
+       "conserve": "C07/conservation/", "conserve2": "C07/conservation/", "hang": "C07/liveness/", "api": "C07/api-call-raised/"}
 
 
 class Hang(Exception):
@@ -231,7 +231,13 @@ def run_case(case, want_proj=True, observe=None):
         with watchdog():
             for i, lab in enumerate(labels):
                 j.at = i
-                p.do(lab)
+                try:
+                    p.do(lab)
+                except Hang:
+                    raise
+                except Exception as e:      # release()/close()/_cleanup()/Task.cancel() are the application's calls: must not raise
+                    j.found["api"] = (i, f"{lab[0]}-raised-{type(e).__name__}", f"label {lab} raised {e!r}")
+                    break
                 if want_proj:
                     out.append(p.project())
                 j(p, lab, i)
@@ -388,8 +394,15 @@ def walk(rng, profile, judge_cb=None, hook=None):
                 else:
                     lab = rng.choices(en, weights=[w[e[0]] for e in en])[0]
             labels.append(lab)
-            with watchdog():
-                p.do(lab)
+            try:
+                with watchdog():
+                    p.do(lab)
+            except Hang:
+                raise
+            except Exception as e:
+                j.found["api"] = (i, f"{lab[0]}-raised-{type(e).__name__}", f"label {lab} raised {e!r}")
+                out.append("api-call-raised")
+                break
             out.append(p.project())
             j(p, lab, i)
         return {"limit": limit, "lph": lph, "mask": mask, "ka": ka, "keys": keys, "labels": labels}, out, j
@@ -573,6 +586,8 @@ def check(ctx):
     outs = ctx.model([model_line(fx, c) for c, _, _, _ in cases])
     for i, (c, out, j, prof) in enumerate(cases):
         last = out[-1] if out else ""
+        if "tasks=" not in last:
+            last = next((o for o in reversed(out) if "tasks=" in o), "")
         nontriv = "tasks=" in last and any(ch in last.split("tasks=")[1] for ch in "wWVchdXTEQ")
         ctx.case((c["limit"], c["lph"], c.get("mask", 0), tuple(c["keys"]), tuple(c["labels"])), nontrivial=nontriv,
                  sample={"case": model_line(fx, c)[:160], "last": last} if i % 499 == 0 else None)
@@ -580,6 +595,8 @@ def check(ctx):
         for lab in c["labels"]:
             ctx.hit("label:" + lab[0])
         for o in out:
+            if "tasks=" not in o:
+                continue
             for tok in o.split("tasks=")[1].split(" ")[0].split(","):
                 if "~" in tok:
                     ctx.hit("trace-hook-suspended:" + tok.split("~")[1][0])
